@@ -39,7 +39,8 @@ vvars == <<comps, phase, order, out, mw, fault, verdict>>
 
 ---------------------------------------------------------------------------
 (* Option sites.  A key site is applicable where the key is present in the rendered component. *)
-KeySites == {"command", "references", "workflowAttributes", "arguments", "executable", "replicate", "aggregate", "backend"}
+KeySites == {"command", "references", "workflowAttributes", "arguments", "executable", "replicate", "aggregate", "backend",
+             "alien"}      \* "alien": a key that resembles no known key; the others are misspellings of known keys
 TypeSites == {"replicate", "aggregate", "aggregateInt", "references", "arguments", "numberProcesses", "stage", "shutdownOn"}
 GlobalVars == {"rg", "rs", "rc", "msg", "unused"}      \* what the package defines in the global scope
 
